@@ -377,7 +377,7 @@ def special_points(leaf):
         return pts
     if cls == "Cylinder":
         d, h = a["dim"]
-        return [[0, 0, 0.1 * h], [0, 0, 2 * h], [d / 2, 0, 0.1 * h], [0.1 * d, 0, h / 2]]
+        return [[0, 0, 0.1 * h], [0, 0, 2 * h], [d / 2, 0, 0.1 * h], [0.1 * d, 0, h / 2], [d / 2, 0, 1.5 * h], [0, d / 2, -h]]
     if cls == "Cuboid":
         x, y, z = a["dim"]
         return [[x / 2, 0.1 * y, 0.1 * z], [x / 2, y / 2, 0.1 * z], [0.1 * x, 0.1 * y, -z / 2]]
@@ -397,10 +397,13 @@ def special_points(leaf):
 def g_sensor(rng, maxlen, shape):
     pos, rot = g_path(rng, maxlen)
     kind = rng.random()
-    if kind < 0.25:
+    if kind < 0.2:
         rot = [[0.0, 0.0, 0.0]] * len(pos)
-    elif kind < 0.5:
+    elif kind < 0.4:
         rot = [rot[0]] * len(pos)
+    elif kind < 0.6:
+        # almost static orientation: a wobble of a few milliradians along the path is still a rotating path
+        rot = [[rot[0][i] + (rng.uniform(-3e-3, 3e-3) if j else 0.0) for i in range(3)] for j in range(len(pos))]
     if shape is None:
         pixel = None
     else:
@@ -453,7 +456,7 @@ def g_special_case(rng, cls=None, mixed=True):
     rng.shuffle(sp)
     pts = sp[:rng.randint(1, len(sp))]
     if mixed:
-        pts += [rvec(rng, -3, 3) for _ in range(rng.randint(1, 2))]
+        pts += [rvec(rng, -3, 3) for _ in range(rng.choice([1, 2, 2, 12, 16]))]
     rng.shuffle(pts)
     if rng.random() < 0.5:
         sens = [{"pos": [[0.0, 0.0, 0.0]], "rot": [[0.0, 0.0, 0.0]], "pixel": pts, "left": False}]
